@@ -8,6 +8,16 @@ import json, os, glob
 
 HERE = os.path.dirname(os.path.abspath(__file__))
 HOOK_COMMITS = json.load(open(os.path.join(HERE, "hook_commits.json")))
-PROPS = {}
-for f in sorted(glob.glob(os.path.join(HERE, "props.d", "C*.json"))):
-    PROPS[os.path.basename(f)[:-5]] = json.load(open(f))
+class _Props(dict):
+    """Loads props.d/<ID>.json on first access (another property's file being rewritten at the
+    same moment must not break this run)."""
+    def __missing__(self, pid):
+        v = json.load(open(os.path.join(HERE, "props.d", pid + ".json")))
+        self[pid] = v
+        return v
+    def load_all(self):
+        for f in sorted(glob.glob(os.path.join(HERE, "props.d", "C*.json"))):
+            self[os.path.basename(f)[:-5]]
+        return self
+
+PROPS = _Props()
